@@ -512,30 +512,29 @@ def _ts_type_rule(w):
   if not isinstance(table, H.OrderedPairs):
     raise AnalysisError("gen_js_schema._ts_types is not a dict literal")
   fi = w.repo.func("gen_js_schema.get_ts_type")
+  v = H.View(w.fn_of(fi))
   p = fi.params()[0]
   rets = [s for s in walk_no_nested(fi.node) if isinstance(s, ast.Return)]
   if len(rets) != 1:
     raise AnalysisError("gen_js_schema.get_ts_type: one return expected")
-  r = rets[0].value
-  if not (isinstance(r, ast.Call) and text(r.func) == "_ts_types.get" and len(r.args) == 2 and
-          text(r.args[0]) == p and isinstance(r.args[1], ast.Constant) and
-          isinstance(r.args[1].value, str)):
+  # the returned expression with the locals that name its parts expanded
+  r = v.x(rets[0].value)
+  b = H.bind_args(r, ("key", "default")) if isinstance(r, ast.Call) and \
+      text(r.func) == "_ts_types.get" else None
+  if not (b is not None and len(b) == 2 and isinstance(b["default"], ast.Constant) and
+          isinstance(b["default"].value, str)):
     raise AnalysisError("gen_js_schema.get_ts_type: return is not _ts_types.get(<type>, "
                         "<default>): %s" % short(r))
-  default = r.args[1].value
+  default = b["default"].value
   sep = None
-  body = [s for s in fi.node.body if not (isinstance(s, ast.Expr) and
-                                          isinstance(s.value, ast.Constant)) and
-          s is not rets[0]]
-  if len(body) == 1 and isinstance(body[0], ast.Assign) and text(body[0].targets[0]) == p:
-    v = body[0].value
-    # <p>.split(SEP, 1)[0]  /  <p>.split(SEP)[0]  /  <p>.partition(SEP)[0]
-    if isinstance(v, ast.Subscript) and isinstance(v.slice, ast.Constant) and \
-        v.slice.value == 0 and isinstance(v.value, ast.Call) and \
-        isinstance(v.value.func, ast.Attribute) and text(v.value.func.value) == p and \
-        v.value.func.attr in ("split", "partition") and v.value.args and \
-        isinstance(v.value.args[0], ast.Constant):
-      sep = v.value.args[0].value
+  k = b["key"]
+  # <p>.split(SEP, 1)[0]  /  <p>.split(SEP)[0]  /  <p>.partition(SEP)[0]
+  if isinstance(k, ast.Subscript) and isinstance(k.slice, ast.Constant) and \
+      k.slice.value == 0 and isinstance(k.value, ast.Call) and \
+      isinstance(k.value.func, ast.Attribute) and text(k.value.func.value) == p and \
+      k.value.func.attr in ("split", "partition") and k.value.args and \
+      isinstance(k.value.args[0], ast.Constant):
+    sep = k.value.args[0].value
   if sep is None:
     raise AnalysisError("gen_js_schema.get_ts_type: the suffix-stripping step was not recognised")
   return table, default, sep, fi
@@ -584,34 +583,49 @@ def r3_interface(run, w, py, ts, cmp_):
 
 def r4_generator(run, w):
   R4 = run.rule("C38-R4", "gen_js_schema.main prints the slots that are compared", floor=4)
-  fi = w.repo.func("gen_js_schema.main")
-  src = set()
-  for n in walk_no_nested(fi.node):
-    if isinstance(n, (ast.Attribute, ast.Subscript, ast.Call)):
-      src.add(text(n))
+  fn = H.xfn(w, "gen_js_schema.main", keep=("get_ts_type",))
+  fi = fn.fi
+  v = H.View(fn)
   loops = [s for s in walk_no_nested(fi.node) if isinstance(s, ast.For)]
-  outer = [l for l in loops if text(l.iter) == "schema.schema_create_actions()"]
+  outer = [l for l in loops if v.t(l.iter) == "schema.schema_create_actions()" and
+           isinstance(l.target, ast.Name)]
   run.ob(R4, fi.qualname, "for table in schema.schema_create_actions() (twice)",
          "both the literal and the interface are generated from schema_create_actions()",
          len(outer) == 2 and all(not l.orelse for l in outer), fi=fi)
   ok = True
+  lit, ifc = [], []
   for l in outer:
-    tv = text(l.target)
-    inner = [s for s in l.body if isinstance(s, ast.For)]
-    ok = ok and len(inner) == 1 and text(inner[0].iter) == "%s.columns" % tv and \
-        any("%s.table_id" % tv in text(c) for c in calls_in(l.body))
+    tm = v.loop_map(l, prefix="_t")
+    inner = [x for x in walk_no_nested(l) if isinstance(x, ast.For) and x is not l and
+             isinstance(x.target, ast.Name) and v.t(x.iter, tm) == "_t0.columns"]
+    prints_t = [c for c in calls_in(l.body) if dotted(c.func) == "print" and
+                "_t0.table_id" in v.t(c, tm)]
+    ok = ok and len(inner) == 1 and bool(prints_t) and \
+        all(v.runs_for_all(l, c) for c in prints_t) and not inner[0].orelse
+    if len(inner) != 1:
+      continue
+    il = inner[0]
+    m2 = H.LoopMap(dict(tm), None)
+    for k_, val in H._versioned(tm).items():
+      m2[k_] = val
+    for k_, val in H._versioned(v.loop_map(il, prefix="_c")).items():
+      m2[k_] = val
+    for c in calls_in(il.body):
+      if dotted(c.func) != "print" or not v.runs_for_all(il, c):
+        continue
+      t = v.t(c, m2)
+      if "_c0['id']" in t and "get_ts_type(_c0['type'])" in t:
+        ifc.append(c)
+      elif "_c0['id']" in t and "_c0['type']" in t and "get_ts_type" not in t:
+        lit.append(c)
   run.ob(R4, fi.qualname, "print(table.table_id); for column in table.columns",
          "every table and every column of it is printed, in order", ok, fi=fi)
-  prints = [c for c in calls_in(fi.node.body) if dotted(c.func) == "print"]
-  lit = [c for c in prints if "column['id']" in text(c) and "column['type']" in text(c) and
-         "get_ts_type" not in text(c)]
-  ifc = [c for c in prints if "column['id']" in text(c) and
-         "get_ts_type(column['type'])" in text(c)]
   run.ob(R4, fi.qualname, "print(column['id'], column['type']) / print(column['id'], "
          "get_ts_type(column['type']))", "the literal carries id and type, the interface id and "
          "derived type", len(lit) == 1 and len(ifc) == 1, fi=fi)
+  prints = [c for c in calls_in(fi.node.body) if dotted(c.func) == "print"]
   run.ob(R4, fi.qualname, "schema.SCHEMA_VERSION in the header", "the version printed is the "
-         "Python constant", any("schema.SCHEMA_VERSION" in text(c) for c in prints), fi=fi)
+         "Python constant", any("schema.SCHEMA_VERSION" in v.t(c) for c in prints), fi=fi)
 
 
 def _canon_py(v):
@@ -672,13 +686,15 @@ def r5_defaults(run, w, tsf, cmp_):
            "same in the engine and in Node", cmp_.eq(a, b), fi=None)
   # fallback for unknown types
   fi = w.repo.func("usertypes.get_type_default")
+  gv = H.View(w.fn_of(fi))
   rets = [s for s in walk_no_nested(fi.node) if isinstance(s, ast.Return)]
-  r = rets[0].value if len(rets) == 1 else None
-  if not (isinstance(r, ast.Call) and text(r.func) == "_type_defaults.get" and
-          1 <= len(r.args) <= 2):
+  r = gv.x(rets[0].value) if len(rets) == 1 else None
+  rb = H.bind_args(r, ("key", "default")) if isinstance(r, ast.Call) and \
+      text(r.func) == "_type_defaults.get" else None
+  if not rb or "key" not in rb:
     raise AnalysisError("usertypes.get_type_default: return is not _type_defaults.get(...)")
-  py_fb = _canon_py(r.args[1].value) if len(r.args) == 2 and isinstance(r.args[1], ast.Constant) \
-      else (("null",) if len(r.args) == 1 else None)
+  py_fb = _canon_py(rb["default"].value) if "default" in rb and \
+      isinstance(rb["default"], ast.Constant) else (("null",) if "default" not in rb else None)
   if py_fb is None:
     raise AnalysisError("usertypes.get_type_default: fallback is not a constant")
   b, e = tsf.function_body("getDefaultForType")
